@@ -2,10 +2,12 @@
 with `replace` directives to /repo and to local stand-ins for modules that are not in the module
 cache (github.com/mit-pdos/gokv, and modules with '.'/'-' in their paths), plus a runner for the
 REAL goose binary built from /repo/cmd/goose."""
+import json
 import os
 import re
 import shutil
 import subprocess
+import time
 
 import common as C
 
@@ -21,6 +23,8 @@ FAKE_MODULES = {
         "grove_ffi": {"ffi.go": "package grove_ffi\n\nfunc GetTimeRange() (uint64, uint64) {\n\treturn 0, 1\n}\n\nfunc Token() uint64 {\n\treturn 7\n}\n"},
         # an FFI package built on top of another FFI: its dependencies must not count
         "grove_on_disk": {"g.go": "package grove_on_disk\n\nfunc Token() uint64 {\n\treturn 8\n}\n"},
+        # a builtin (no Require is printed for it) that is NOT an FFI package: the FFI behind it counts
+        "time": {"t.go": "package time\n\nimport \"github.com/mit-pdos/gokv/grove_ffi\"\n\nfunc Stamp() uint64 {\n\treturn grove_ffi.Token()\n}\n"},
     },
     "example.org/go-journal.v2": {
         "util": {"u.go": "package util\n\nfunc F() uint64 {\n\treturn 1\n}\n"},
@@ -110,3 +114,98 @@ def split_output(text):
         footer = "\nEnd code.\n"
         rest = rest[: -len("\nEnd code.\n")] + "\n"
     return notice, prelude, reqs, header, rest, footer
+
+
+# ---------------------------------------------------------------------------------------
+# re-translation over an existing output tree (the command's "write only if changed" path)
+
+STALE_WAYS = ("prefix", "longer", "truncated", "case", "same-length", "empty")
+
+
+def make_stale(content, way):
+    """An older version of an output file, differing from `content` in one particular way."""
+    if way == "prefix":
+        return b"(* stale *)\n" + content
+    if way == "longer":
+        return content + b"\n(* left over from an older version *)\nDefinition old: val := #0.\nEnd code.\n"
+    if way == "truncated":
+        return content[: max(1, len(content) // 2)]
+    if way == "case":          # differs only in the case of letters inside one definition body
+        i = content.rfind(b"Definition ")
+        return content[:i] + content[i:].swapcase() if i >= 0 else content.swapcase()
+    if way == "same-length":   # same size, one digit or letter changed near the end
+        b = bytearray(content)
+        for i in range(len(b) - 1, -1, -1):
+            if chr(b[i]).isalnum():
+                b[i] = ord("7") if chr(b[i]) != "7" else ord("8")
+                break
+        return bytes(b)
+    return b""
+
+
+def retranslation_disagreement(pkgs, scratch, ways=STALE_WAYS, flags=()):
+    """Translate `pkgs` into a fresh directory; then, for every way of being stale, plant an older version of
+    every output file and translate again into that directory: each file must end up byte-identical to the
+    fresh translation.  Returns None or a description of the first difference (its `input` replays it)."""
+    ref_root = os.path.join(scratch, "rt_ref")
+    shutil.rmtree(ref_root, ignore_errors=True)
+    write_module(ref_root, pkgs)
+    rc0, _, err0 = run_goose(ref_root, list(flags), ["./..."])
+    ref = tree(os.path.join(ref_root, "Goose"))
+    bad = None
+    if not ref:
+        shutil.rmtree(ref_root, ignore_errors=True)
+        return None
+    for way in ways:
+        root = os.path.join(scratch, "rt_" + way)
+        shutil.rmtree(root, ignore_errors=True)
+        write_module(root, pkgs)
+        old = time.time() - 100000
+        for rel, (content, _, _) in ref.items():
+            p = os.path.join(root, "Goose", rel)
+            os.makedirs(os.path.dirname(p), exist_ok=True)
+            open(p, "wb").write(make_stale(content.replace(ref_root.encode(), root.encode()), way))
+            os.utime(p, (old, old))
+        rc, _, err = run_goose(root, list(flags), ["./..."])
+        got = tree(os.path.join(root, "Goose"))
+        for rel, (content, _, _) in ref.items():
+            want = content.replace(ref_root.encode(), b"<ROOT>")
+            have = got.get(rel, (b"<missing>",))[0].replace(root.encode(), b"<ROOT>")
+            if have != want and bad is None:
+                k = next((i for i in range(min(len(have), len(want))) if have[i] != want[i]), min(len(have), len(want)))
+                bad = {"input": {"proto": "retranslate", "packages": pkgs, "stale": way, "flags": list(flags)},
+                       "file": rel, "exit": rc,
+                       "expected": "the file equals the translation into an empty directory (%d bytes)" % len(want),
+                       "observed": "%d bytes; first difference at byte %d: have %r, want %r" % (len(have), k, have[k:k + 80], want[k:k + 80])}
+        shutil.rmtree(root, ignore_errors=True)
+        if bad:
+            break
+    shutil.rmtree(ref_root, ignore_errors=True)
+    return bad
+
+
+RT_PACKAGE = {"rt": {"a.go": "package rt\n\n// Greeting is looked at by callers.\nfunc Greeting() string {\n\treturn \"ok, Fine\"\n}\n\ntype Pair struct {\n\ta uint64\n\tb uint64\n}\n\nfunc Sum(p Pair, n uint64) uint64 {\n\tvar acc uint64 = p.a\n\tfor i := uint64(0); i < n; i++ {\n\t\tacc = acc + p.b\n\t}\n\treturn acc\n}\n",
+                     "b.go": "package rt\n\nconst Limit uint64 = 12\n\nfunc Twice(x uint64) uint64 {\n\treturn Sum(Pair{a: x, b: x}, 1) + Limit\n}\n"}}
+
+
+def retranslate_stream(ctx, scratch, what, found, pkgs=None):
+    """Run the re-translation stream; report the first difference as a violation of ctx.prop. Returns found."""
+    bad = retranslation_disagreement(pkgs or RT_PACKAGE, scratch)
+    ctx.coverage.setdefault("retranslations", 0)
+    ctx.coverage["retranslations"] += len(STALE_WAYS)
+    if bad and not found:
+        ctx.violation("counterexample", what + " (translating again over an older output file: %s)" % bad["input"]["stale"], bad["input"],
+                      expected=bad["expected"], observed={"file": bad["file"], "exit": bad["exit"], "difference": bad["observed"]})
+        return True
+    return found
+
+
+def replay_retranslate(inp):
+    scratch = C.scratch()
+    try:
+        bad = retranslation_disagreement(inp["packages"], scratch, ways=[inp["stale"]], flags=inp.get("flags", []))
+    finally:
+        shutil.rmtree(scratch, ignore_errors=True)
+    print(json.dumps(bad, indent=1, default=str))
+    print("verdict:", "violates the property" if bad else "meets the property")
+    return 1 if bad else 0
